@@ -146,6 +146,9 @@ func setMech(fv reflect.Value, rnd *rand.Rand, id uint64, own string, bothAlias 
 	case reflect.Slice:
 		if fv.Type().Elem().Kind() == reflect.String {
 			k := 1 + rnd.IntN(3)
+			if rnd.IntN(5) == 0 {
+				k = 0 // present and empty: overrides what lower layers hold
+			}
 			s := reflect.MakeSlice(fv.Type(), k, k)
 			for i := 0; i < k; i++ {
 				s.Index(i).SetString(fmt.Sprintf("e%d_%d", n, i))
@@ -154,6 +157,9 @@ func setMech(fv reflect.Value, rnd *rand.Rand, id uint64, own string, bothAlias 
 		}
 	case reflect.Map:
 		k := 1 + rnd.IntN(3)
+		if rnd.IntN(5) == 0 {
+			k = 0
+		}
 		m := reflect.MakeMap(fv.Type())
 		for i := 0; i < k; i++ {
 			m.SetMapIndex(reflect.ValueOf(fmt.Sprintf("e%d_%d", n, i)), reflect.Zero(fv.Type().Elem()))
@@ -186,6 +192,50 @@ func nativeValue(t *dials.Type, names []string, id uint64, own string) (reflect.
 	iv := reflect.New(it).Elem()
 	fillMech(iv, id, own, false)
 	return tfm.ReverseTranslate(iv)
+}
+
+// nativeDirect writes the same logical data into the layout Dials asks an
+// unwrapped source for WITHOUT any library code: the native type is filled
+// leaf by leaf with the draws fillMech makes for the mangled layout (an
+// aliased leaf consumes the which-of-the-two draw; a set is a map here and a
+// list there, drawn alike). It is the independent reference for what the
+// library's reverse translation must produce. Not available for mangler lists
+// that move leaves between structs (anonflatten).
+func nativeDirect(t *dials.Type, names []string, id uint64, own string) reflect.Value {
+	v := reflect.New(t.Type()).Elem()
+	fillNative(v, names, id, own)
+	return v
+}
+
+func fillNative(v reflect.Value, names []string, id uint64, own string) {
+	t := v.Type()
+	for i := 0; i < t.NumField(); i++ {
+		f := t.Field(i)
+		fv := v.Field(i)
+		if f.Name == "Stamp" || f.Name == "StampB" {
+			if f.Name == own {
+				p := reflect.New(fv.Type().Elem())
+				p.Elem().SetUint(id)
+				fv.Set(p)
+			}
+			continue
+		}
+		leafRnd := rand.New(rand.NewPCG(id, hashStr(f.Name)))
+		if leafRnd.IntN(100) < 45 {
+			continue
+		}
+		if contains(names, "alias") && f.Tag.Get("dialsalias") != "" {
+			leafRnd.IntN(2) // which of original and alias carries the value in the mangled layout
+		}
+		if fv.Kind() == reflect.Ptr && fv.Type().Elem().Kind() == reflect.Struct {
+			leafRnd.IntN(50) // setMech's value draw, unused for structs
+			p := reflect.New(fv.Type().Elem())
+			fillNative(p.Elem(), names, id, own)
+			fv.Set(p)
+			continue
+		}
+		setMech(fv, leafRnd, id, own, false)
+	}
 }
 
 type WrapSpec struct {
@@ -595,6 +645,17 @@ func (r *wrapRun) wrapped(c *ClientSpec, blank *sourcewrap.Blank, inner *wInnerW
 		v, err := nativeValue(nat.typ, names, id, "Stamp")
 		if err != nil {
 			panic(err)
+		}
+		if !contains(names, "anonflatten") {
+			// the library's own reverse translation against the same data written natively
+			lib := v
+			if lib.Kind() == reflect.Ptr {
+				lib = lib.Elem()
+			}
+			if a, b := render(lib.Interface()), render(nativeDirect(nat.typ, names, id, "Stamp").Interface()); a != b {
+				r.fail("C20.unmangle", "reverse translation (manglers %v) of value %d differs from the same data written natively\n reverse-translated: %s\n native:             %s", names, id, a, b)
+			}
+			r.probes["reverse-translation-checked-against-native"]++
 		}
 		if blocking {
 			err = nat.wa.BlockingReportNewValue(r.ctx, v)
